@@ -41,6 +41,8 @@ type HReq struct {
 
 func (r HReq) String() string {
 	switch r.Kind {
+	case "legacy":
+		return fmt.Sprintf("old-format-records(k%v,%d->%d,slot %d)", r.Keys, r.S, r.T, r.Slot)
 	case "prop":
 		return fmt.Sprintf("prop(k%d,slot %d,r%d)", r.Keys[0], r.Slot, r.Root)
 	default:
@@ -77,6 +79,15 @@ var c03Creds = &checker.Credentials{Client: rig.DefaultClient, RequestID: "r", I
 // do executes one request; returns which entries got a signature.
 func (s *c03Stack) do(r HReq) []bool {
 	switch r.Kind {
+	case "legacy":
+		// Not a request: the directory was used by an older release, which left records in the old (gob) format for
+		// these keys (attestation S->T, proposal Slot). Nothing is signed here.
+		for _, k := range r.Keys {
+			pub := s.accts[k].PubBytes()
+			_ = s.rig.Rules.VerifRawPut(s.rig.Ctx, append(append([]byte{}, pub...), 0x02), gobBytes(legacyAtt{int64(r.S), int64(r.T)}))
+			_ = s.rig.Rules.VerifRawPut(s.rig.Ctx, append(append([]byte{}, pub...), 0x03), gobBytes(legacyProp{int64(r.Slot)}))
+		}
+		return nil
 	case "att":
 		e := Ent{Key: r.Keys[0], S: r.S, T: r.T, Root: r.Root}
 		_, sig := s.rig.Signer.SignBeaconAttestation(s.rig.Ctx, c03Creds, "Wallet 1/"+s.accts[r.Keys[0]].Name(), nil, AttData(e))
@@ -382,6 +393,18 @@ func c03Histories(tier string) [][]HReq {
 	for _, a := range menu {
 		for _, b := range menu {
 			hs = append(hs, []HReq{a, b})
+		}
+	}
+	// The same on a directory that an older release has used: both keys hold records in the old format.
+	legacy := HReq{Kind: "legacy", Keys: []int{0, 1}, S: 0, T: 1, Slot: 1}
+	for _, a := range menu {
+		hs = append(hs, []HReq{legacy, a})
+	}
+	if tier == "thorough" {
+		for _, a := range menu {
+			for _, b := range menu {
+				hs = append(hs, []HReq{legacy, a, b})
+			}
 		}
 	}
 	if tier == "thorough" {
